@@ -10,48 +10,6 @@ set_option linter.unusedSimpArgs false
 
 /-! ## printing and reading numbers -/
 
-theorem cast_of_nonpos (z : Int) (h : z ≤ 0) : (z : ℚ) = -((z.natAbs : Nat) : ℚ) := by
-  have hz : (z : ℚ) ≤ 0 := by exact_mod_cast h
-  rw [Nat.cast_natAbs, Int.cast_abs, abs_of_nonpos hz]; ring
-
-theorem cast_of_nonneg (z : Int) (h : 0 ≤ z) : (z : ℚ) = ((z.natAbs : Nat) : ℚ) := by
-  have hz : (0 : ℚ) ≤ z := by exact_mod_cast h
-  rw [Nat.cast_natAbs, Int.cast_abs, abs_of_nonneg hz]
-
-/-- the independent number parser reads the text of `'%.nf' % q` as exactly `q` rounded to `n` decimals. -/
-theorem parseNum_fmtFixed (q : ℚ) (n : Nat) : parseNum? (fmtFixed q n) = some (fixedVal q n) := by
-  have hden : 0 < q.den := q.den_pos
-  have hP : (0 : ℚ) < ((10 ^ n : Nat) : ℚ) := by positivity
-  set M := (fixedScaled q n).natAbs with hM
-  have hfr : M % 10 ^ n < 10 ^ n := Nat.mod_lt _ (by positivity)
-  have hsplit : M / 10 ^ n * 10 ^ n + M % 10 ^ n = M := Nat.div_add_mod' M (10 ^ n)
-  have hun := parseUnsigned_fixed (M / 10 ^ n) (M % 10 ^ n) n hfr
-  rw [hsplit] at hun
-  unfold parseNum? fmtFixed
-  simp only [← hM]
-  by_cases hq : q < 0
-  · have hnum : q.num * ((10 ^ n : Nat) : Int) ≤ 0 := by
-      have : q.num < 0 := Rat.num_neg.mpr hq
-      have h10 : (0 : Int) ≤ ((10 ^ n : Nat) : Int) := by positivity
-      nlinarith
-    have hs : fixedScaled q n ≤ 0 := roundDiv_nonpos _ _ hden hnum
-    rw [if_pos hq]
-    simp only [List.cons_append, List.nil_append, List.append_assoc, splitSign_minus, hun, if_true]
-    congr 1
-    unfold fixedVal
-    have : ((fixedScaled q n : Int) : ℚ) = -((M : Nat) : ℚ) := cast_of_nonpos _ hs
-    rw [this]; ring
-  · have hnum : 0 ≤ q.num * ((10 ^ n : Nat) : Int) := by
-      have : 0 ≤ q.num := Rat.num_nonneg.mpr (not_lt.mp hq)
-      positivity
-    have hs : 0 ≤ fixedScaled q n := roundDiv_nonneg _ _ hden hnum
-    rw [if_neg hq]
-    simp only [List.nil_append, List.append_assoc, splitSign_natTok_append, hun]
-    congr 1
-    unfold fixedVal
-    have : ((fixedScaled q n : Int) : ℚ) = ((M : Nat) : ℚ) := cast_of_nonneg _ hs
-    rw [this]; simp
-
 /-- **fmtFixed_error**: what an independent reader gets from the printed text differs from the exact value by at
     most half a unit of the last printed place. -/
 theorem fmtFixed_error (q : ℚ) (n : Nat) :
